@@ -608,7 +608,7 @@ where
                 ..
             }) => {
                 // the member type may refer back to this very indexed access
-                self.resolve_reference(&indexed_access_key(obj_type, index_type), *span, || {
+                self.guard_indexed_access(obj_type, index_type, *span, || {
                     if let Some(ty) = self.resolve_indexed_access(obj_type, index_type) {
                         self.resolve_type_elements(&ty, props);
                     } else {
@@ -696,8 +696,40 @@ where
         }
     }
 
+    /// Runs `op` while the indexed access `Obj[index]` is marked as being resolved. A cycle is only
+    /// possible through a type declared in this module, so only those accesses are tracked.
+    fn guard_indexed_access<T>(
+        &self,
+        obj: &TsType,
+        index: &TsType,
+        span: Span,
+        op: impl FnOnce() -> T,
+    ) -> Option<T> {
+        match indexed_access_key(obj, index) {
+            Some(key) if !key.1.has_mark(self.unresolved_mark) => {
+                self.resolve_reference(&key, span, op)
+            }
+            _ => Some(op()),
+        }
+    }
+
     fn resolve_indexed_access(&self, obj: &TsType, index: &TsType) -> Option<TsType> {
         match obj {
+            // `Obj[a][b]`
+            TsType::TsIndexedAccessType(TsIndexedAccessType {
+                obj_type,
+                index_type,
+                span,
+                ..
+            }) => self
+                .guard_indexed_access(obj_type, index_type, *span, || {
+                    self.resolve_indexed_access(obj_type, index_type)
+                        .and_then(|ty| self.resolve_indexed_access(&ty, index))
+                })
+                .flatten(),
+            TsType::TsParenthesizedType(TsParenthesizedType { type_ann, .. }) => {
+                self.resolve_indexed_access(type_ann, index)
+            }
             TsType::TsTypeRef(TsTypeRef {
                 type_name: TsEntityName::Ident(ident),
                 type_params,
@@ -1160,11 +1192,19 @@ where
                 ..
             }) => {
                 // the member type may refer back to this very indexed access
-                self.resolve_reference(&indexed_access_key(obj_type, index_type), *span, || {
-                    if let Some(ty) = self.resolve_indexed_access(obj_type, index_type) {
-                        runtime_types.extend(self.infer_runtime_type(&ty));
+                let resolved = self
+                    .guard_indexed_access(obj_type, index_type, *span, || {
+                        self.resolve_indexed_access(obj_type, index_type)
+                            .map(|ty| self.infer_runtime_type(&ty))
+                    })
+                    .flatten();
+                match resolved {
+                    Some(types) => runtime_types.extend(types),
+                    // what cannot be resolved is not checked at runtime (an empty list would reject every value)
+                    None => {
+                        runtime_types.insert(Some(Atom::from(ANY_TYPE)));
                     }
-                });
+                }
             }
             TsType::TsOptionalType(TsOptionalType { type_ann, .. }) => {
                 runtime_types.extend(self.infer_runtime_type(type_ann));
@@ -1261,7 +1301,7 @@ where
 
 /// Key under which the indexed access `Obj[index]` is tracked while it is being resolved
 /// (distinct from the key of the named type itself).
-fn indexed_access_key(obj_type: &TsType, index_type: &TsType) -> (Atom, SyntaxContext) {
+fn indexed_access_key(obj_type: &TsType, index_type: &TsType) -> Option<(Atom, SyntaxContext)> {
     let index = match index_type {
         TsType::TsLitType(TsLitType {
             lit: TsLit::Str(str),
@@ -1278,8 +1318,19 @@ fn indexed_access_key(obj_type: &TsType, index_type: &TsType) -> (Atom, SyntaxCo
         TsType::TsTypeRef(TsTypeRef {
             type_name: TsEntityName::Ident(ident),
             ..
-        }) => (Atom::from(format!("{}[{}]", ident.sym, index)), ident.ctxt),
-        _ => (Atom::from(format!("[{}]", index)), SyntaxContext::empty()),
+        }) => Some((Atom::from(format!("{}[{}]", ident.sym, index)), ident.ctxt)),
+        // `Obj[a][b]` is tracked under the named type it starts from
+        TsType::TsIndexedAccessType(TsIndexedAccessType {
+            obj_type,
+            index_type,
+            ..
+        }) => indexed_access_key(obj_type, index_type)
+            .map(|(key, ctxt)| (Atom::from(format!("{}[{}]", key, index)), ctxt)),
+        TsType::TsParenthesizedType(TsParenthesizedType { type_ann, .. }) => {
+            indexed_access_key(type_ann, index_type)
+        }
+        // literal, array and tuple types can only refer back through a named type, which is tracked itself
+        _ => None,
     }
 }
 
